@@ -149,6 +149,10 @@ class Evaluator:
             return tuple(self.expr(x, env) for x in e.elts)
         if isinstance(e, ast.List):
             return [self.expr(x, env) for x in e.elts]
+        if isinstance(e, ast.Dict):
+            return {self.expr(k, env): self.expr(v, env) for k, v in zip(e.keys, e.values)}
+        if isinstance(e, ast.JoinedStr):
+            return Opaque('f-string')
         if isinstance(e, ast.UnaryOp):
             v = self.expr(e.operand, env)
             if isinstance(e.op, ast.Not):
